@@ -53,6 +53,9 @@ ALPHA = [
     # only '*' is a wildcard: other characters of a pattern stand for themselves
     ('0103.***', 'a dot is not a wildcard', []),
     ('E5******', 'reported-error catch-all below which nothing is defined', []),
+    # parameter numbers are C integer literals: a hex literal or a signed number is one number (26, -1: outside 1..4)
+    ('0104**00', 'hex literal parameter %d', ['0x1A']),
+    ('0104****', 'byte four %d, minus one, hex three %d', [4, '-1', '0x3']),
 ]
 TS = [0, 1, 3599, 3600, 65534, 65535]
 SEQ = [0, 0xBEEF]
@@ -66,7 +69,7 @@ def pte_alphabet():
                 for n7 in (0, 1):
                     out.append((n0 << 28) | (n1 << 24) | (n3 << 16) | n7)
     out += [0x01004142, 0x01014142, 0x0101FF00, 0xFFFFFFFF, 0x00000000, 0xE1040000, 0xE1000000, 0xE0041234, 0xF0040000, 0xE20C0190, 0xE2080190, 0xE30C7704, 0xE3087704,
-            0x01022A00, 0x01022A2B, 0x0103A000, 0x01030000, 0xE4040000, 0xE4000000, 0xEF0C0001]
+            0x01022A00, 0x01022A2B, 0x01042A00, 0x01042A2B, 0x0103A000, 0x01030000, 0xE4040000, 0xE4000000, 0xEF0C0001]
     return out
 
 
@@ -122,7 +125,8 @@ def table_model(idx):
     out = []
     for i in idx:
         pat, msg, params = ALPHA[i]
-        out.append((pat, msg.strip().replace('\\"', '"'), tuple(p for p in params if 1 <= p <= 4)))
+        nums = [int(str(x), 0) for x in params]
+        out.append((pat, msg.strip().replace('\\"', '"'), tuple(x for x in nums if 1 <= x <= 4)))
     return out
 
 
